@@ -8,6 +8,9 @@ use crate::rt::{Ctx, Fail};
 use crate::spec;
 
 pub mod c01;
+pub mod c02;
+pub mod c03;
+pub mod c04;
 
 pub fn level(prop: &str) -> &'static str {
 	match prop {
@@ -20,6 +23,9 @@ pub fn level(prop: &str) -> &'static str {
 pub fn run(ctx: &Ctx) -> usize {
 	match ctx.prop.as_str() {
 		"C01" => c01::run(ctx),
+		"C02" => c02::run(ctx),
+		"C03" => c03::run(ctx),
+		"C04" => c04::run(ctx),
 		p => panic!("unknown property {}", p),
 	}
 }
@@ -28,6 +34,9 @@ pub fn run(ctx: &Ctx) -> usize {
 pub fn replay(ctx: &Ctx, kind: &str, params: &Value) -> Result<(), Fail> {
 	match ctx.prop.as_str() {
 		"C01" => c01::case(ctx, kind, params, false),
+		"C02" => c02::case(ctx, kind, params, false),
+		"C03" => c03::case(ctx, kind, params, false),
+		"C04" => c04::case(ctx, kind, params, false),
 		p => panic!("unknown property {}", p),
 	}
 }
@@ -42,6 +51,9 @@ pub fn regress_file(ctx: &Ctx, path: &str) -> Result<(), Fail> {
 	let bytes = std::fs::read(path).map_err(|e| Fail::new("io", e.to_string()))?;
 	match ctx.prop.as_str() {
 		"C01" => c01::file_case(&bytes),
+		"C02" => c02::file_case(&bytes),
+		"C03" => c03::file_case(&bytes),
+		"C04" => c04::file_case(&bytes),
 		p => panic!("unknown property {}", p),
 	}
 }
